@@ -1,6 +1,63 @@
-import common
+import json
+import common, t3util
 
 PID = "C16"
+
+ZONES = ["Asia/Tokyo", "America/Sao_Paulo", "Europe/London", "America/New_York", "Asia/Kolkata", "Australia/Lord_Howe"]
+TEXTS = ["2000-01-01 00:00:00", "2023-07-04 12:34:56", "1999-12-31 23:59:59", "2024-02-29 06:00:00"]
+INSTANTS = [0, 946684800, 1700000000, 1719792000, -86400]
+
+
+def t3(rep, tier, seed):
+    """--tz / TZ / ENV["TZ"] select the zone of the *_local functions (also when ENV["TZ"] changes within one
+    run) and leave the GMT functions alone. Reference: the same functions given the zone as an explicit argument."""
+    mlr, _ = t3util.binaries(rep)
+    if not mlr:
+        return
+    n = 0
+    def run(argv, env=None):
+        rc, so, se = t3util.run(mlr, argv, env=env, timeout=30)
+        return rc, so.decode(errors="replace"), se.decode(errors="replace")
+    # reference values with explicit zones, one run
+    ref = {}
+    prog = "end{" + "".join(
+        'print "%s|%s|" . localtime2sec("%s", "%s") . "|" . strptime_local("%s", "%%Y-%%m-%%d %%H:%%M:%%S", "%s");' % (z, t, t, z, t, z)
+        for z in ZONES for t in TEXTS) + "".join(
+        'print "%s|%d|" . sec2gmt(%d) . "|" . strftime_local(%d, "%%Y-%%m-%%d %%H:%%M:%%S %%Z", "%s") . "|" . sec2gmtdate(%d);' % (z, i, i, i, z, i)
+        for z in ZONES for i in INSTANTS) + "}"
+    rc, so, se = run(["-n", "put", prog])
+    if rc != 0:
+        rep.violation("spec", "time functions with explicit zones failed", {"exit": rc, "stderr": se[:300]}, True)
+        return
+    for l in so.splitlines():
+        f = l.split("|")
+        ref[(f[0], f[1])] = f[2:]
+    def body(z):
+        return "".join('print "%s|%s|" . localtime2sec("%s") . "|" . strptime_local("%s", "%%Y-%%m-%%d %%H:%%M:%%S");' % (z, t, t, t) for t in TEXTS) + \
+               "".join('print "%s|%d|" . sec2gmt(%d) . "|" . strftime_local(%d, "%%Y-%%m-%%d %%H:%%M:%%S %%Z") . "|" . sec2gmtdate(%d);' % (z, i, i, i, i) for i in INSTANTS)
+    def compare(how, out):
+        nonlocal n
+        for l in out.splitlines():
+            f = l.split("|")
+            n += 1
+            if ref.get((f[0], f[1])) != f[2:]:
+                rep.violation("spec", "the zone selected by %s is not the one the *_local functions use (or a GMT function moved)" % how,
+                              {"selection": how, "zone": f[0], "argument": f[1], "observed": f[2:], "with_explicit_zone": ref.get((f[0], f[1]))}, True)
+    for z in ZONES:
+        rc, so, se = run(["--tz", z, "-n", "put", "end{" + body(z) + "}"]); compare("--tz", so)
+        rc, so, se = run(["-n", "put", "end{" + body(z) + "}"], env={"TZ": z}); compare("the TZ environment variable", so)
+        rc, so, se = run(["-n", "put", 'end{ENV["TZ"] = "%s";' % z + body(z) + "}"]); compare('ENV["TZ"]', so)
+    # switching within one run: every ordered pair, then back
+    for a in ZONES:
+        for b in ZONES:
+            if a == b:
+                continue
+            prog = 'end{ENV["TZ"] = "%s";%s ENV["TZ"] = "%s";%s ENV["TZ"] = "%s";%s}' % (a, body(a), b, body(b), a, body(a))
+            rc, so, se = run(["-n", "put", prog]); compare('ENV["TZ"] reassigned within one run', so)
+            rc, so, se = run(["--tz", a, "-n", "put", 'end{%s ENV["TZ"] = "%s";%s}' % (body(a), b, body(b))]); compare('--tz then ENV["TZ"]', so)
+    rep.coverage.setdefault("t3", {})["zone_selection_results_compared"] = n
+    rep.coverage["evaluations"] = rep.coverage.get("evaluations", 0) + n
+    rep.coverage["distinct_nontrivial"] = rep.coverage.get("distinct_nontrivial", 0) + n
 
 
 def check(tier, seed):
@@ -11,6 +68,7 @@ def check(tier, seed):
             "the real functions are called in-process (pkg/bifs); the canonical texts fed to gmt2sec are produced by an independent Go day-counting routine in the harness, not by Miller",
         ],
         rule="instants: every offset in {0, +-1, +-2, +-59..61, +-3599..3601, +-86399..86401} around 23 anchors (the epoch, leap days of 1972/2000/2024/2400/0400, the non-leap centuries 1900/2100/0100, year ends, 0001-01-01, 9999-12-31T23:59:59, 2^31 boundaries) plus 3000-60000 seeded instants (uniform over years 1..9999, random year boundaries, +-2e9, anchor neighbourhoods) for sec2gmt and sec2gmtdate; gmt2sec on 21 hand-written valid/invalid texts and 1000-20000 independently rendered instants; sec2dhms/sec2hms on unit boundaries, int64 extremes and seeded magnitudes of both signs; dhms2sec/hms2sec on 32 well- and ill-formed texts; strptime(strftime) for 11 formats incl. %j, %s, %1S-%9S, 10 IANA zones; fractional d/h/m/s; sec2gmt decimals",
+        extra=t3,
     )
 
 
